@@ -35,7 +35,7 @@ FUNCTIONS_ENCODED = [
     "pyanalyze.format_strings.PercentFormatString.from_pattern / from_bytes_pattern / lint (replay of E2 witnesses)",
     "pyanalyze.format_strings.PercentFormatString.accept / accept_tuple_args_no_mvv / accept_mapping_args_no_mvv / get_serial_specifiers",
     "pyanalyze.format_strings.ConversionSpecifier.accept_no_mvv / StarConversionSpecifier.accept",
-    "pyanalyze.format_strings.parse_format_string / _parse_children / _parse_replacement_field",
+    "pyanalyze.format_strings.parse_format_string / _parse_children / _parse_replacement_field (errors and, for a single field, index-vs-keyword decision)",
 ]
 BOUNDS = {
     "quick": {"H17a": "all templates of length <= 8 without newline, str and bytes", "H17b": "<= 2 specifiers from 8 kinds, <= 3 arguments from 4 kinds, payloads symbolic (int unbounded, str len <= 2)",
@@ -751,6 +751,68 @@ def h17_fmt(s: str) -> bool:
     return fin((len(errs) == 0) == model_format_ok(s))
 
 
+NAME_ALPHA = "01 +-_a"  # no "." / "[": attribute and index paths are outside this obligation (pyanalyze requires identifier attribute names, a stricter rule)
+
+
+def model_first(name: str):
+    """CPython's FieldNameIterator: the part before the first '.' or '[' is a positional index iff it is a
+    non-empty run of ASCII digits; otherwise it is a keyword name ('' = auto-numbering)."""
+    i = 0
+    while i < len(name) and name[i] not in ".[":
+        i += 1
+    first = name[:i]
+    if first != "" and all(c in "0123456789" for c in first):
+        return int(first)
+    return first
+
+
+def e3_field(maxlen: int) -> Dict[str, Any]:
+    import _string
+
+    n = 0
+    bad = []
+    for L in range(0, maxlen + 1):
+        for tup in itertools.product(NAME_ALPHA, repeat=L):
+            name = "".join(tup)
+            try:
+                real = _string.formatter_field_name_split(name)[0]
+            except ValueError:
+                continue
+            n += 1
+            if real != model_first(name) or type(real) is not type(model_first(name)):
+                bad.append((name, real, model_first(name)))
+    return {"compared": n, "disagreements": bad[:10]}
+
+
+def h17_field(s: str) -> bool:
+    """
+    post: _
+    """
+    # a single replacement field "{<name>}": which argument does pyanalyze look up - positional index or
+    # keyword name - compared with CPython's rule
+    if excluded(s=s):
+        return skip()
+    n = G.case["len"]
+    if len(s) != n:
+        return skip()
+    for ch in s:
+        if ch not in NAME_ALPHA:
+            return skip()
+    parsed, errs = parse_format_string("{" + s + "}")
+    if errs:
+        return fin(not model_format_ok("{" + s + "}"))
+    if not model_format_ok("{" + s + "}"):
+        return fin(False)
+    fields = [c for c in parsed.children if isinstance(c, fs.ReplacementField)]
+    if len(fields) != 1:
+        return fin(False)
+    want = model_first(s)
+    got = fields[0].arg_name
+    if want == "":
+        return fin(got is None)
+    return fin(type(got) is type(want) and got == want)
+
+
 # =======================================================================================
 
 
@@ -761,9 +823,10 @@ def pre_run(tier: str, seed: int) -> Dict[str, Any]:
     e3a = e3_percent(4 if tier == "quick" else 5)
     e3b = e3_args()
     e3c = e3_format(4 if tier == "quick" else 5)
+    e3d = e3_field(3)
     extra["e3"] = {"percent_template_model_vs_cpython": e3a, "argument_rules_vs_cpython": e3b,
-                   "format_parser_port_vs_string_Formatter": e3c}
-    extra["e3_validated"] = e3a["compared"] + e3b["compared"] + e3c["compared"]
+                   "format_parser_port_vs_string_Formatter": e3c, "field_name_rule_vs__string": e3d}
+    extra["e3_validated"] = e3a["compared"] + e3b["compared"] + e3c["compared"] + e3d["compared"]
     for name, e in extra["e3"].items():
         if e["disagreements"]:
             extra["harness_errors"].append(f"E3 oracle validation failed for {name}: {e['disagreements'][:3]}")
@@ -824,6 +887,8 @@ def cases(tier: str, seed: int) -> List[Case]:
                 for extra in (0, 1):
                     out.append(Case("h17_map", f"map:{conv_a}{conv_b}:{a_kind}:{extra}",
                                     {"convs": [conv_a, conv_b], "a_kind": a_kind, "extra": extra}, timeout=60))
+    for L in range(0, (2 if quick else 3) + 1):
+        out.append(Case("h17_field", f"field:len{L}", {"len": L}, timeout=240 if quick else 1800, twin=L > 0))
     for L in range(0, (3 if quick else 4) + 1):
         out.append(Case("h17_fmt", f"fmt:len{L}", {"len": L}, timeout=240 if quick else 1800, twin=L > 0))
     return out
